@@ -252,6 +252,12 @@ func GenPlan(def *PropDef, tier string, seed uint64, run int64) *Plan {
 	plan := def.Gen(def, tier, seed, run)
 	if (plan.Engine == "H" || plan.Engine == "S") && Mix(seed, 0x74797065)%8 == 0 {
 		plan.Cfg.Typed = true
+		if plan.Prop == "C08" && plan.Cfg.Times {
+			// the adapter stamps messages without a time when the call starts, the log does it
+			// when the call gets the writer lock: under concurrency (and a moving clock) the
+			// adapter's times can decrease with offset, and time lookups are then not pinned down
+			plan.Cfg.Typed = false
+		}
 	}
 	return plan
 }
